@@ -133,6 +133,7 @@ func (api *API) Submit(ctx context.Context, blobs []da.Blob, gasPrice float64, _
 			return res, context.Canceled
 		}
 		api.Logger.Error("RPC call failed", "method", "Submit", "error", err, "namespace", api.Namespace)
+		err = wireError{err}
 	} else {
 		api.Logger.Debug("RPC call successful", "method", "Submit", "num_ids_returned", len(res))
 	}
@@ -186,6 +187,7 @@ func (api *API) SubmitWithOptions(ctx context.Context, inputBlobs []da.Blob, gas
 			return res, context.Canceled
 		}
 		api.Logger.Error("RPC call failed", "method", "SubmitWithOptions", "error", err)
+		err = wireError{err}
 	} else {
 		api.Logger.Debug("RPC call successful", "method", "SubmitWithOptions", "num_ids_returned", len(res))
 	}
